@@ -70,7 +70,7 @@ def handle (j : Json) : Json :=
       if jhas j "obs" then
         let o := jobj j "obs"
         let obs : Obs := { exit := jnat o "exit", processed := toks o "processed", started := toks o "started",
-                           ran := toks o "ran" }
+                           ran := toks o "ran", actionsOnly := jbool o "actions_only" }
         let chunked := match planGen ts false args dflt single with
           | .ok p => chunkedB p.tasks p.sel obs.started
           | .error _ => true
